@@ -81,14 +81,31 @@ func genC04(seed uint64, tier string) Scenario {
 	}
 	s.Service = genService(g, 1+g.IntN(4), "unix:@c04")
 	nClients := 1 + g.IntN(3)
+	// contention: every connection keeps calling ITS OWN registered interface while
+	// the scheduler switches between them at statement level — routing state that
+	// leaks from one connection to another sends a call to the wrong dispatcher
+	contention := g.Pct(20)
+	if contention {
+		s.Service = genService(g, 2+g.IntN(3), "unix:@c04")
+		nClients = 2 + g.IntN(2)
+		s.Config.YieldDensity = 3
+		s.Config.Sched = 0
+	}
 	cid := 0
 	for c := 0; c < nClients; c++ {
 		var cs ClientSpec
 		nCalls := 2 + g.IntN(8)
+		if contention {
+			nCalls = 6 + g.IntN(8)
+		}
 		for i := 0; i < nCalls; i++ {
 			cid++
 			var text string
-			if g.Pct(6) && i >= nCalls-2 {
+			if contention {
+				own := s.Service.Ifaces[c%len(s.Service.Ifaces)].Name
+				s.Scripts[cid] = Script{Actions: []Action{{Op: "reply", Params: `{"cid":` + quote(g.String(4)) + `}`}}}
+				text = callFrame(own+".M", withCid(cid, `{}`), false, false, false, nil)
+			} else if g.Pct(6) && i >= nCalls-2 {
 				text = g.Pick(`{"method":"org.varlink.service.GetInfo"} x`, `{"method":"a.b.M"}{"method":"a.b.M"}`, `{"method":"a.b.M"}]`, `{"method":"a.b.M"},`, `null null`, `{"method":"org.varlink.service.GetInfo"}garbage`,
 					`[]`, `"a.b.M"`, `5`, `null`, `{"method":5}`, `{"method":null}`, `{}`, `{"Method":"a.b.M"}`,
 					`{"method":["a.b.M"]}`, `{"method":{"x":1}}`, `true`, `{"method":"a.b.M","more":"yes"}`, `{"method":"a.b.M"`, ``)
